@@ -86,6 +86,10 @@ impl<'a> World<'a> {
             "C08"
         } else if is_space_err(gotn) || (!errs.is_empty() && errs.iter().all(|e| is_space_err(e))) {
             "C05"
+        } else if (opk == "open_dir" || opk == "change_dir") && (ok_allowed || errs.contains(&"NotFound")) {
+            // "opening a sub-directory succeeds exactly for names that the listing contains" is C06's clause; what a
+            // file or an invalid name gets is C07's
+            "C06"
         } else {
             home_prop(opk)
         };
